@@ -21,6 +21,8 @@ func checkC02(c *Ctx) {
 	c.checkPrepareMessage()
 	c.checkContentUnaltered()
 	c.checkPushAudience()
+	c.checkMessageCopyIsDeep()
+	c.checkEvictionDetachesAll()
 }
 
 func (c *Ctx) checkPrepareMessage() {
